@@ -51,9 +51,14 @@ class MonEnd(ChanEnd):
         self.after_send = None  # callable(data) run in the sender's thread after each send()
         self.send_waiting = False  # a sender is parked on a full (bounded) pipe; touched with self._wr.cv held
         self.send_blocks = 0
+        self.partial_owner = None  # thread that has sent only part of what it passed to send()
+        self.partial_sends = 0
+        self.interleaves = 0
 
     def send(self, data):
         cap = getattr(self.wire, "d2_capacity", None)
+        if isinstance(cap, dict):  # per sending end: {"vf-client": n, "vf-server": m}
+            cap = cap.get(self._name)
         if cap is not None:
             # bounded pipe (flow-control back-pressure, like an exhausted channel window): block while the peer has
             # `cap` unread bytes, then hand over at most the free room (callers loop, as with Channel.send)
@@ -67,7 +72,15 @@ class MonEnd(ChanEnd):
                     finally:
                         self.send_waiting = False
                 room = max(1, cap - len(d.buf))
+            whole = len(data)
             data = bytes(data[:room])
+            # who is in the middle of a frame?  (callers loop over partial sends, like BaseSFTP._write_all)
+            me = threading.get_ident()
+            if self.partial_owner not in (None, me):
+                self.interleaves += 1  # another thread's bytes go out inside this thread's unfinished frame
+            self.partial_owner = me if len(data) < whole else (None if self.partial_owner == me else self.partial_owner)
+            if len(data) < whole:
+                self.partial_sends += 1
         n = super().send(data)
         hook = self.after_send
         if hook is not None:
@@ -293,7 +306,7 @@ class MonBench(Bench):
             return True
         d = self.wire.s2c
         with d.cv:
-            return self.wire.server_end.send_waiting and len(d.buf) >= (getattr(self.wire, "d2_capacity", None) or 1 << 62)
+            return self.wire.server_end.send_waiting
 
     def client_idle(self):
         d = self.wire.s2c
